@@ -79,6 +79,8 @@ pub struct Share {
     /// Set while a chain that references this share is in flight on a queue (published, not yet
     /// completed by the device).
     pub posted_on: Option<u16>,
+    /// Queue on which this share was last published (stays set after completion).
+    pub last_queue: Option<u16>,
     /// Device wrote to the bounce buffer.
     pub dev_wrote: bool,
 }
@@ -811,7 +813,24 @@ pub struct World {
     pub cfg_exposed: Vec<Vec<u8>>,
 }
 
+thread_local! {
+    static CLASS_FILTER: std::cell::Cell<&'static [&'static str]> = const { std::cell::Cell::new(&[]) };
+}
+
+/// Restricts the violation classes recorded on this thread (empty = all); see `runner::Batch`.
+pub fn set_class_filter(classes: &'static [&'static str]) {
+    CLASS_FILTER.with(|c| c.set(classes));
+}
+
+pub fn class_judged(class: &str) -> bool {
+    let f = CLASS_FILTER.with(|c| c.get());
+    f.is_empty() || f.contains(&class)
+}
+
 pub fn push_violation(v: &mut Vec<Violation>, class: &str, site: &str, msg: String, tick: u64) {
+    if !class_judged(class) {
+        return;
+    }
     if v.len() < 8 {
         v.push(Violation {
             class: class.to_string(),
@@ -865,6 +884,30 @@ pub fn flip(num: u64, den: u64) -> bool {
 pub fn violation(class: &str, site: &str, msg: String) {
     with(|w| w.violation(class, site, msg));
 }
+/// After a driver whose operations all completed has been dropped: nothing may still be shared
+/// with the device ("unshared once when its completion is consumed").
+pub fn check_nothing_shared(site: &str, request_queues: &[u16]) {
+    with(|w| {
+        if !w.violations.is_empty() || w.stop {
+            return;
+        }
+        // Buffers the driver keeps stocked on event/receive queues, and anything the device has
+        // not completed, are still legitimately shared; a buffer of a request queue whose chain
+        // the device completed has had its completion consumed (the calls are blocking).
+        let leaked: Vec<String> = w
+            .hal
+            .shares
+            .values()
+            .filter(|s| s.posted_on.is_none() && s.last_queue.is_none_or(|q| request_queues.contains(&q)))
+            .map(|s| format!("paddr {:#x} len {} {:?} (last published on queue {:?})", s.paddr, s.len, s.dir, s.last_queue))
+            .collect();
+        if let Some(first) = leaked.first() {
+            let n = leaked.len();
+            w.violation("share-leaked", site, format!("{n} buffer(s) still shared with the device after every request completed and the driver was dropped; first: {first}"));
+        }
+    });
+}
+
 pub fn violated() -> bool {
     with(|w| !w.violations.is_empty() || w.stop)
 }
